@@ -94,6 +94,21 @@ func c07Corpus() []c07Prog {
 		sh := c10Shape{"", false, []bool{false, true}, []int{0, 1}, false}
 		out = append(out, c07Prog{"task with boundary events, one fired", sh.prog().XML(sig), nil, []string{"P"}, "s0"})
 	}
+	{ // more tokens than an inbox holds converge on one task and one end event
+		p := &Prog{}
+		p.Node("start", "start")
+		p.Node("par", "F")
+		p.Node("xor", "M")
+		p.Node("task", "A")
+		p.Node("end", "end")
+		p.Flow("start", "F", "")
+		for i := 0; i < 12; i++ {
+			p.Flow("F", "M", "")
+		}
+		p.Flow("M", "A", "")
+		p.Flow("A", "end", "")
+		mk("twelve tokens into one task and one end event", p, "", nil, []string{"A"}, "")
+	}
 	{ // timer catch event waiting
 		p := &Prog{}
 		p.Node("start", "start")
